@@ -57,7 +57,9 @@ func (h H) transferTargetEligibility(rule string) {
 	gcp := h.fn("raft:(*Raft).getConnPool")
 	for k, c := range h.P.CallsTo(fn, gcp) {
 		h.C.Check(rule+" request-to-target", h.site(fn, gcp, k), h.argStr(c, 1) == tsym, h.pos(c), "timeout-now is sent to "+h.argStr(c, 1)+" instead of the chosen target")
-		r := fi.MustCross(c, func(a core.Atom) bool { return a.Op == "!=" && (a.L == "0" && a.R == tsym || a.R == "0" && a.L == tsym) })
+		r := fi.MustCross(c, func(a core.Atom) bool {
+			return a.Op == "!=" && (a.L == "0" && a.R == tsym || a.R == "0" && a.L == tsym)
+		})
 		h.C.Check(rule+" only-if-chosen", h.site(fn, gcp, k), r.OK, h.pos(c), "timeout-now can be sent without a chosen target")
 	}
 	for i, g := range h.P.GoSites(fn) {
@@ -170,7 +172,9 @@ func (h H) transferReplyMeaning(rule string) {
 		ok := iR >= 0 && t.Events[iR].Args[1] == "$1" && iS >= 0
 		h.C.Check(rule+" reply-shape", "(*transfer).reply path["+t.Describe()+"]", ok, t.ExitPos, "transfer.reply must answer the task with its argument and stop the transfer timer")
 		// back to idle: inProgress() and targetChosen() are false afterwards (timer, respCh, newTermTimer)
-		iN := evIndex(t, func(e core.Event) bool { return e.Callee == "(*safeTimer).stop" && e.Args[0] == "transfer.newTermTimer" })
+		iN := evIndex(t, func(e core.Event) bool {
+			return e.Callee == "(*safeTimer).stop" && e.Args[0] == "transfer.newTermTimer"
+		})
 		idle := iS >= 0 && iN >= 0 && t.Mem("transfer.respCh") == "nil"
 		h.C.Check(rule+" reply-returns-to-idle", "(*transfer).reply idle["+t.Describe()+"]", idle, t.ExitPos, "after a transfer is answered some of its in-progress state survives (timer, reply channel, new-term timer): a late timeout-now answer or timer would be handled by a node that is no longer transferring (respCh="+t.Mem("transfer.respCh")+")")
 	}
